@@ -28,6 +28,8 @@ const (
 	sigF1caller = "F1: append in place — CAT/CATPUSHDATA wrote into caller-owned memory"
 	sigF1layout = "F1: the result of vm.Verify depends on how the argument bytes are laid out in memory"
 	sigF1item   = "F1: CAT/CATPUSHDATA changed another stack item (shared backing array)"
+	sigListSlot = "vm.Verify wrote a slot of the caller's Arguments / StateData list (the VM's stack is the caller's slice)"
+	sigTwice    = "running vm.Verify twice on the same context gives different answers"
 )
 
 type c06slice struct{ arr, off, ln, cp int }
@@ -43,6 +45,8 @@ type c06layout struct {
 	state  []c06slice
 	asset  *c06slice
 	spent  *c06slice
+
+	outerArgs, outerState [][]byte // the whole backing lists of ctx.Arguments / ctx.StateData
 }
 
 // items in a fixed order: code, args…, state…, entry, asset?, spent?
@@ -122,15 +126,86 @@ func c06build(c *Ctx, k *vmCase, kind string) *c06layout {
 
 func (l *c06layout) slice(s c06slice) []byte { return l.arrays[s.arr][s.off : s.off+s.ln : s.off+s.cp] }
 
+// c06list lays a list of items out as an outer [][]byte: exact (len == cap), with spare capacity
+// behind it (make([][]byte, n, n+k) as ReadVarstrList-style decoders produce), or as a sub-slice
+// of a longer list with guard slots before and behind.  `outer` is the whole backing list.
+func c06list(items [][]byte, mode string) (list, outer [][]byte) {
+	guard := func() []byte { return []byte{0xde, 0xad} }
+	switch mode {
+	case "spare":
+		outer = make([][]byte, len(items), len(items)+2)
+		copy(outer, items)
+		full := outer[:cap(outer)]
+		for i := len(items); i < len(full); i++ {
+			full[i] = guard()
+		}
+		return outer, full
+	case "sub":
+		outer = make([][]byte, 0, len(items)+3)
+		outer = append(outer, guard())
+		outer = append(outer, items...)
+		outer = append(outer, guard(), guard())
+		return outer[1 : 1+len(items)], outer
+	case "subtight":
+		outer = make([][]byte, 0, len(items)+2)
+		outer = append(outer, guard())
+		outer = append(outer, items...)
+		outer = append(outer, guard())
+		return outer[1 : 1+len(items) : 1+len(items)], outer
+	}
+	if len(items) == 0 {
+		return nil, nil
+	}
+	outer = make([][]byte, len(items))
+	copy(outer, items)
+	return outer, outer
+}
+
+type c06slot struct {
+	ptr *byte
+	ln  int
+	val []byte
+}
+
+func c06snap(outer [][]byte) []c06slot {
+	out := make([]c06slot, len(outer))
+	for i, it := range outer {
+		out[i] = c06slot{ln: len(it), val: cp(it)}
+		if len(it) > 0 {
+			out[i].ptr = &it[0]
+		}
+	}
+	return out
+}
+
+// c06slotDiff: "" if every slot of the outer list still holds the same slice (same first byte
+// address, same length, same bytes).
+func c06slotDiff(before []c06slot, outer [][]byte) string {
+	for i, it := range outer {
+		var p *byte
+		if len(it) > 0 {
+			p = &it[0]
+		}
+		if len(it) != before[i].ln || p != before[i].ptr || !bytes.Equal(it, before[i].val) {
+			return fmt.Sprintf("slot %d: %x -> %x", i, before[i].val, it)
+		}
+	}
+	return ""
+}
+
 func (l *c06layout) context(k *vmCase) *vm.Context {
 	ctx := &vm.Context{VMVersion: 1, Code: l.slice(l.code), EntryID: l.slice(l.entry), TxVersion: k.txVersion,
 		BlockHeight: k.blockHeight, Amount: k.amount, DestPos: k.destPos}
+	var args, state [][]byte
 	for _, s := range l.args {
-		ctx.Arguments = append(ctx.Arguments, l.slice(s))
+		args = append(args, l.slice(s))
 	}
 	for _, s := range l.state {
-		ctx.StateData = append(ctx.StateData, l.slice(s))
+		state = append(state, l.slice(s))
 	}
+	mode := map[string]string{"fresh": "exact", "spare": "spare", "shared": "sub", "guard": "subtight"}[l.name]
+	ctx.Arguments, l.outerArgs = c06list(args, mode)
+	ctx.StateData, l.outerState = c06list(state, mode)
 	if l.asset != nil {
 		b := l.slice(*l.asset)
 		ctx.AssetID = &b
@@ -257,14 +332,41 @@ func c06case(c *Ctx) *vmCase {
 		k.blockHeight = u64p(100)
 	}
 	k.code = c06program(c, 0)
+	if r.Intn(10) < 4 { // first writes stay inside the supplied stacks: slot overwrites of the caller's lists
+		pre := [][]byte{
+			{0x7c},             // SWAP
+			{0x77, 0x77},       // NIP NIP
+			{0x7b},             // ROT
+			{0x75, 0x51},       // DROP 1
+			{0x83},             // INVERT (replaces the top slot)
+			{0xa8, 0x20},       // SHA256 <32-byte digest> EQUAL  (hash lock; digest appended below)
+			{0x6c, 0x8b, 0x6b}, // FROMALTSTACK 1ADD TOALTSTACK
+			{0x6c, 0x75},       // FROMALTSTACK DROP
+			{0x7c, 0x75, 0x51}, // SWAP DROP 1
+			{0x8b},             // 1ADD
+		}[r.Intn(10)]
+		if pre[0] == 0xa8 {
+			d := make([]byte, 32)
+			r.Read(d)
+			pre = append(append([]byte{0xa8, 0x20}, d...), 0x87)
+		}
+		if r.Intn(2) == 0 {
+			k.code = pre
+		} else {
+			k.code = append(pre, k.code...)
+		}
+	}
 	for i := 1 + r.Intn(4); i > 0; i-- {
 		b := make([]byte, r.Intn(12))
 		r.Read(b)
 		k.args = append(k.args, b)
 	}
-	for i := r.Intn(2); i > 0; i-- {
+	for i := r.Intn(3); i > 0; i-- {
 		b := make([]byte, r.Intn(8))
 		r.Read(b)
+		if r.Intn(2) == 0 {
+			b = []byte{byte(r.Intn(100))}
+		}
 		k.state = append(k.state, b)
 	}
 	if r.Intn(8) == 0 {
@@ -322,7 +424,10 @@ func c06one(c *Ctx, k *vmCase, tag string) {
 			before[i] = cp(l.arrays[i])
 		}
 		line := l.line(k)
-		res := runVMContext(l.context(k), k.limit, kind == "fresh")
+		ctx := l.context(k)
+		snapA, snapS := c06snap(l.outerArgs), c06snap(l.outerState)
+		lenA, lenS := len(ctx.Arguments), len(ctx.StateData)
+		res := runVMContext(ctx, k.limit, kind == "fresh")
 		arrs := c06arrays(l.arrays)
 		if res.watchdog || res.class == "unexpected" {
 			arrs = "?"
@@ -339,6 +444,20 @@ func c06one(c *Ctx, k *vmCase, tag string) {
 				break
 			}
 		}
+		// direct oracle 1b: the caller's LISTS — every slot of the outer slices (inside and beyond
+		// the supplied length) still holds the same item, and the lengths are what they were
+		if d := c06slotDiff(snapA, l.outerArgs); d != "" || len(ctx.Arguments) != lenA {
+			failCapped(c, sigListSlot, fmt.Sprintf("layout %s Arguments %s", kind, d))
+		} else if d := c06slotDiff(snapS, l.outerState); d != "" || len(ctx.StateData) != lenS {
+			failCapped(c, sigListSlot, fmt.Sprintf("layout %s StateData %s", kind, d))
+		}
+		// direct oracle 1c: the same context verified again gives the same answer
+		if !res.watchdog {
+			again := runVMContext(ctx, k.limit, false)
+			if again.line != res.line {
+				failCapped(c, sigTwice, fmt.Sprintf("layout %s first: %s  second: %s", kind, res.line, again.line))
+			}
+		}
 		// direct oracle 2: layout independence
 		if kind == "fresh" {
 			first = res.line
@@ -352,7 +471,7 @@ func c06one(c *Ctx, k *vmCase, tag string) {
 }
 
 func runC06(c *Ctx) {
-	c.Rule = "programs over the aliasing-relevant alphabet (pushes, DUP/OVER/2DUP/IFDUP/TUCK/PICK, LEFT/RIGHT/SUBSTR, CAT/CATPUSHDATA, SWAP/ROT/alt stack, PROGRAM/ENTRYID/ASSET/OUTPUTID/TXSIGHASH, hashes, INVERT, nested CHECKPREDICATE whose predicate and arguments are stack items, the chain DUP 1 LEFT x CAT), 1..4 arguments, optional state data; each program in four memory layouts (fresh / spare capacity / one shared buffer / shared buffer with guard bytes); a case is distinct by its op line"
+	c.Rule = "programs over the aliasing-relevant alphabet (pushes, DUP/OVER/2DUP/IFDUP/TUCK/PICK, LEFT/RIGHT/SUBSTR, CAT/CATPUSHDATA, SWAP/ROT/alt stack, PROGRAM/ENTRYID/ASSET/OUTPUTID/TXSIGHASH, hashes, INVERT, nested CHECKPREDICATE whose predicate and arguments are stack items, the chain DUP 1 LEFT x CAT), 40% of the programs start with (or consist of) a write that stays inside the supplied stacks (SWAP, NIP NIP, ROT, DROP 1, INVERT, SHA256 <digest> EQUAL, FROMALTSTACK 1ADD TOALTSTACK, 1ADD …); 1..4 arguments, 0..2 state items; each program in four memory layouts of the bytes (fresh / spare capacity / one shared buffer / shared buffer with guard bytes) combined with four layouts of the argument and state LISTS (exact / spare capacity behind the list / sub-slice of a longer list with and without capacity); after each run the caller's byte arrays and every slot of the caller's lists are compared with snapshots and the same context is verified a second time; a case is distinct by its op line"
 	lines := c.CorpusLines()
 	if c.Replay != "" {
 		lines = c.ReplayLines()
